@@ -22,7 +22,7 @@ var histOpsSync = map[string]bool{"create": true, "sched": true, "delete": true,
 var histClasses = []wkClass{
 	{"sts", ""}, {"sts", "immutable"}, {"sts", "never"},
 	{"dp", ""}, {"dp", "immutable"}, {"dp", "never"},
-	{"dppool", ""}, {"dppool", "never"},
+	{"dppool", ""}, {"dppool", "never"}, {"dppool", "immutable"}, // a named pool means "never", whatever the policy annotation says
 	{"bare", ""}, {"bare", "never"},
 }
 
